@@ -162,25 +162,56 @@ func extractReceiverInfo(pass *analysis.Pass, funcDecl *ast.FuncDecl) *receiverI
 	}
 }
 
-// fieldOwnerType returns the type whose field the selector x.f denotes: the type of x or, when f is
-// promoted through embedded fields (x.f standing for x.E.f), the type of the innermost embedded field.
-func fieldOwnerType(pass *analysis.Pass, selector *ast.SelectorExpr) types.Type {
+// fieldOwnerType returns the type that decides whether the field selected by x.f may be written.
+// x.f also stands for (*x).f when x is of a defined pointer type (type P *T) and for x.E.f when f is
+// promoted through embedded fields, and f is a field of every type on that way: the first of them
+// that forbids the write is returned, otherwise the innermost one.
+func fieldOwnerType(ctx *checkerContext, selector *ast.SelectorExpr) types.Type {
+	owners := fieldOwnerTypes(ctx.pass, selector)
+	if len(owners) == 0 {
+		return nil
+	}
+	for _, owner := range owners {
+		if ctx.forbidsFieldWrite(owner, selector.Sel.Name) {
+			return owner
+		}
+	}
+	return owners[len(owners)-1]
+}
+
+// forbidsFieldWrite reports whether t (or the type t points to) is an @immutable type outside its
+// constructors whose field of that name is not marked @mutable
+func (ctx *checkerContext) forbidsFieldWrite(t types.Type, fieldName string) bool {
+	if ptr, ok := types.Unalias(t).(*types.Pointer); ok {
+		t = ptr.Elem()
+	}
+	named, ok := types.Unalias(t).(*types.Named)
+	if !ok || named.Obj().Pkg() == nil || !util.IsPackageLevelType(named) {
+		return false
+	}
+	pkgPath, typeName := named.Obj().Pkg().Path(), named.Obj().Name()
+	return ctx.immutableTypes.Contains(pkgPath, typeName) &&
+		!ctx.inConstructor(pkgPath, typeName) &&
+		!ctx.mutableFields.Match(pkgPath, fieldName, typeName)
+}
+
+// fieldOwnerTypes lists the types on the way from x to the field f of the selector x.f, outermost first
+func fieldOwnerTypes(pass *analysis.Pass, selector *ast.SelectorExpr) []types.Type {
 	xType := pass.TypesInfo.TypeOf(selector.X)
+	if xType == nil {
+		return nil
+	}
+	owners := []types.Type{xType}
 	// x.f also stands for (*x).f when x is of a defined pointer type (type P *T)
-	if xType != nil {
-		if _, plain := types.Unalias(xType).(*types.Pointer); !plain {
-			if ptr, ok := xType.Underlying().(*types.Pointer); ok {
-				xType = ptr.Elem()
-			}
+	if _, plain := types.Unalias(xType).(*types.Pointer); !plain {
+		if ptr, ok := xType.Underlying().(*types.Pointer); ok {
+			owners = append(owners, ptr.Elem())
 		}
 	}
 
 	selection := pass.TypesInfo.Selections[selector]
 	if selection == nil || selection.Kind() != types.FieldVal {
-		return xType
-	}
-	if len(selection.Index()) == 1 {
-		return xType
+		return owners
 	}
 
 	owner := selection.Recv()
@@ -191,11 +222,12 @@ func fieldOwnerType(pass *analysis.Pass, selector *ast.SelectorExpr) types.Type 
 		}
 		structType, ok := owner.Underlying().(*types.Struct)
 		if !ok || fieldIndex >= structType.NumFields() {
-			return xType
+			return owners
 		}
 		owner = structType.Field(fieldIndex).Type()
+		owners = append(owners, owner)
 	}
-	return owner
+	return owners
 }
 
 func checkAssignment(
@@ -239,7 +271,7 @@ func checkFieldAssignment(
 	selector *ast.SelectorExpr,
 ) *ImmutableViolation {
 	// Get type of the receiver (t in t.field)
-	receiverType := fieldOwnerType(ctx.pass, selector)
+	receiverType := fieldOwnerType(ctx, selector)
 	if receiverType == nil {
 		return nil
 	}
@@ -293,7 +325,7 @@ func checkIndexAssignment(
 		return nil
 	}
 
-	receiverType := fieldOwnerType(ctx.pass, selector)
+	receiverType := fieldOwnerType(ctx, selector)
 	if receiverType == nil {
 		return nil
 	}
@@ -369,7 +401,7 @@ func checkFieldIncDec(
 	node *ast.IncDecStmt,
 	selector *ast.SelectorExpr,
 ) *ImmutableViolation {
-	receiverType := fieldOwnerType(ctx.pass, selector)
+	receiverType := fieldOwnerType(ctx, selector)
 	if receiverType == nil {
 		return nil
 	}
@@ -498,7 +530,7 @@ func checkCompoundLHS(
 		return nil
 	}
 
-	receiverType := fieldOwnerType(ctx.pass, selector)
+	receiverType := fieldOwnerType(ctx, selector)
 	if receiverType == nil {
 		return nil
 	}
